@@ -1,5 +1,6 @@
 import OrasModel.Driver.G
 import OrasModel.Driver.V
+import OrasModel.Driver.R
 open Oras.Driver
 
 structure DState where
@@ -17,6 +18,9 @@ def handle (st : DState) (line : String) : DState × String :=
   match splitWs line with
   | "case" :: _ => ({}, "m=ok s=ok")
   | "g" :: rest => answer (G.step st.g rest) st (fun g => { st with g := g })
+  | "ref" :: rest => (match R.step rest with
+      | some (m, s) => (st, s!"m={m} s={s}")
+      | none => (st, "bad-op"))
   | "v" :: rest => answer (V.step st.v rest) st (fun v => { st with v := v })
   | _ => (st, "bad-op")
 
